@@ -195,6 +195,9 @@ def fault_part(ctx):
             cfg = {'extractor': rng.choice([e for e in fr.EXTRACTORS if e != 'ok_calls_output']), 'fail_save': rng.random() < 0.15, 'rate': rng.choice([None, None, 0, 0.5, 1]),
                    'copy': rng.choice([None, True, False]), 'kind': rng.choice(['memory', 'memory', 'async', 'file', 's3', 's3calc']),
                    'caller_context': fr.CALLER_CONTEXTS[idx % 9] if idx % 9 < 4 else 'plain'}     # also called from except / finally blocks
+            if idx % 13 == 6:
+                cfg['extractor'] = 'discards'      # the metadata extractor itself asks for the recording to be discarded (after the fact)
+                ctx.count('runs_whose_extractor_discards')
             if idx % 7 == 3:
                 cfg['verbose'] = True        # DEBUG logging on, service object and some values printable by their owner only
                 ctx.count('runs_with_debug_logging_and_unprintable_values')
@@ -390,6 +393,88 @@ def interrupt_while_the_framework_works(ctx):
                     ctx.violation('an interrupt-style exception raised while the framework was working on the service\'s thread did not reach the caller: %r' % (outcome,), w)
 
 
+def callable_objects_part(ctx):
+    """The decorated callable is not a function: a functools.partial, an instance with __call__, a builtin (no __name__ / no code object).
+    With a working data handler and with one that fails (the recording is discarded), with recording on and off: the service gets
+    exactly what the callable returns."""
+    import functools
+    from playback.tape_recorder import TapeRecorder
+    from playback.tape_cassettes.in_memory.in_memory_tape_cassette import InMemoryTapeCassette
+    from playback.interception.input_interception import InputInterceptionDataHandler
+    from playback.interception.output_interception import OutputInterceptionDataHandler
+
+    class FailingIn(InputInterceptionDataHandler):
+        def prepare_input_for_recording(self, interception_key, result, args, kwargs):
+            raise RuntimeError('input data handler fails')
+
+        def restore_input_from_recording(self, recorded_data, args, kwargs):
+            return recorded_data
+
+    class FailingOut(OutputInterceptionDataHandler):
+        def prepare_output_for_recording(self, interception_key, args, kwargs):
+            raise RuntimeError('output data handler fails')
+
+        def restore_output_from_recording(self, recorded_data):
+            return recorded_data
+
+    def send(prefix, message):
+        return (prefix, 'sent', message)
+
+    class Sender(object):
+        def __call__(self, message):
+            return ('instance', 'sent', message)
+    for enabled in (True, False):
+        for handler_fails in (False, True):
+            for shape in ('partial', 'callable_instance', 'builtin'):
+                rec = TapeRecorder(InMemoryTapeCassette())
+                if enabled:
+                    rec.enable_recording()
+                raw = {'partial': functools.partial(send, 'partial'), 'callable_instance': Sender(), 'builtin': len}[shape]
+                kw_out = {'data_handler': FailingOut()} if handler_fails else {}
+                kw_in = {'data_handler': FailingIn()} if handler_fails else {}
+                out_fn = rec.static_intercept_output('co.out', **kw_out)(raw)
+                in_fn = rec.static_intercept_input('co.in', **kw_in)(raw)
+
+                class Svc(object):
+                    @rec.operation()
+                    def run(self):
+                        return [out_fn('m1'), in_fn('m2'), out_fn('m3')]
+                try:
+                    got = ('returned', Svc().run())
+                except BaseException as ex:  # noqa
+                    got = ('raised', type(ex).__name__, str(ex)[:80])
+                exp = ('returned', [raw('m1'), raw('m2'), raw('m3')])
+                w = {'callable_objects': True, 'shape': shape, 'handler_fails': handler_fails, 'recording_enabled': enabled}
+                ctx.case(w)
+                ctx.count('calls_through_decorated_callable_objects', 3)
+                if got != exp:
+                    ctx.violation('an interception decorated onto a callable object behaves differently from the callable itself', dict(w, decorated=repr(got)[:200], plain=repr(exp)[:200]))
+
+
+def import_side_effects(ctx):
+    """Importing the library (every module of it) is transparent too: process-wide settings of the interpreter and of the third-party
+    serializer the service may use itself are the same before and after. Asked of a fresh interpreter."""
+    import json
+    import os
+    import subprocess
+    import sys
+    script = os.path.join(env.VERIF, 'vlib', 'import_probe.py')
+    try:
+        p = subprocess.run([sys.executable, script], stdout=subprocess.PIPE, stderr=subprocess.PIPE, text=True, timeout=300,
+                           env=dict(os.environ, VERIF_REPO=env.REPO, PYTHONHASHSEED='0'))
+        res = json.loads([l for l in p.stdout.splitlines() if l.startswith('IMPORT ')][-1][7:])
+    except Exception as ex:
+        ctx.inconclusive('import side effect probe failed: %r' % (ex,))
+        return
+    ctx.case(('import_side_effects', res['imported']))
+    ctx.count('library_modules_imported_in_a_fresh_interpreter', res['imported'])
+    if res['changed']:
+        ctx.violation('importing the library changed process-wide state: %s' % ', '.join(res['changed'])[:150], {'import_side_effects': True})
+    if res['serializer_changed']:
+        ctx.violation('importing the library changed process-wide options of the serializer the service shares with it (jsonpickle)',
+                      {'import_side_effects': True, 'before': res['before'], 'after': res['after']})
+
+
 def async_dead_flusher(ctx):
     """Asynchronous cassette whose background thread is gone (killed by a storage error that derives from BaseException; the same
     state a worker forked from a pre-fork master is in): recordings are lost, the recorded service must not notice."""
@@ -441,6 +526,8 @@ def run(ctx):
         async_dead_flusher(ctx)
         disabled_passthrough_part(ctx)
         interrupt_while_the_framework_works(ctx)
+        callable_objects_part(ctx)
+        import_side_effects(ctx)
     try:
         from checks import C04_sched
     except ImportError:
@@ -452,6 +539,10 @@ def run(ctx):
 
 
 def replay(ctx, w):
+    if w.get('callable_objects'):
+        return callable_objects_part(ctx)
+    if w.get('import_side_effects'):
+        return import_side_effects(ctx)
     if w.get('interrupt_during_encoding'):
         return interrupt_while_the_framework_works(ctx)
     if w.get('disabled_shapes'):
